@@ -141,7 +141,13 @@ WellFormed(pic) ==
     /\ \A i \in 1..Len(pic.pei) : pic.pei[i] \in 0..255
     /\ \A i \in 1..Len(pic.mbs) : MbOk(pic.mbs[i], IntraPic(pic), Ver1(pic))
     /\ Len(RealMbs(pic)) <= NMb(pic)
-    /\ pic.mbs # <<>> => IsReal(pic.mbs[Len(pic.mbs)])          \* no stuffing after the last macroblock
+    /\ pic.mbs # <<>> => (IsReal(pic.mbs[Len(pic.mbs)]) \/ pic.hk # "sor")    \* no stuffing after the last macroblock
+
+(* Error concealment in standard H.263 mode (a named deviation of the decoder, beyond the listed properties): a last    *)
+(* macroblock whose MCBPC or CBPY is no code word ends the picture there.  Effective(pic) = the picture that is decoded. *)
+Concealed(pic) == /\ pic.hk # "sor" /\ Len(pic.mbs) >= 1
+                  /\ LET m == pic.mbs[Len(pic.mbs)] IN m.k = "mb" /\ "fault" \in DOMAIN m /\ m.fault \in {"mcbpc", "cbpy"}
+Effective(pic) == IF Concealed(pic) THEN [pic EXCEPT !.mbs = SubSeq(pic.mbs, 1, Len(pic.mbs) - 1)] ELSE pic
 
 (* ------------------------------ decoding state induced by a picture --------------- *)
 (* quantizer in force for each real macroblock *)
